@@ -24,4 +24,22 @@ variable {α β : Type} (oa : Ops α) (ob : Ops β) (fixed : Bool)
 @[simp] theorem nodeOps_fuel : (nodeOps oa ob fixed).fuel = nodeFuel oa ob := rfl
 end
 
+section
+variable {α β : Type} {oa : Ops α} {ob : Ops β}
+theorem nodeAdjust_proj (v : Int) (s : Node α β) :
+    (nodeAdjust oa ob v s).aval = s.aval ∧ (nodeAdjust oa ob v s).bval = s.bval ∧
+    (nodeAdjust oa ob v s).useA = s.useA ∧ (nodeAdjust oa ob v s).lastIsA = s.lastIsA ∧
+    (nodeAdjust oa ob v s).a = (if s.aval then oa.adjust v s.a else s.a) ∧
+    (nodeAdjust oa ob v s).b = (if s.bval then ob.adjust v s.b else s.b) := by
+  unfold nodeAdjust
+  cases hav : s.aval <;> cases hbv : s.bval <;> simp [hav, hbv]
+
+
+theorem nodeAdjust_fields (v : Int) (s : Node α β) :
+    (nodeAdjust oa ob v s).lastT = s.lastT ∧ (nodeAdjust oa ob v s).penA = s.penA ∧
+    (nodeAdjust oa ob v s).penB = s.penB ∧ (nodeAdjust oa ob v s).bad = s.bad := by
+  unfold nodeAdjust
+  cases hav : s.aval <;> cases hbv : s.bval <;> simp [hav, hbv]
+end
+
 end Thanos.Dedup
